@@ -52,6 +52,20 @@ def make_tt(N, R, dtype=torch.float64, vals='int', g=None, M=None, scales=None, 
     return torchtt.TT(make_cores(N, R, dtype, vals, g, M=M, scales=scales, lo=lo, hi=hi))
 
 
+def buffer_views(cores, lead=3):
+    """The same cores laid out one after the other in ONE flat buffer (after `lead` unused elements): every core is a contiguous view with its own
+    storage offset; equally shaped cores have equal shape AND strides and differ only in the offset (parameter-buffer / stacked-cores layout)."""
+    total = lead + sum(c.numel() for c in cores)
+    buf = torch.zeros(total, dtype=cores[0].dtype)
+    out, off = [], lead
+    for c in cores:
+        n = c.numel()
+        buf[off:off + n] = c.reshape(-1)
+        out.append(buf[off:off + n].view(c.shape))
+        off += n
+    return out
+
+
 def abs_bound(*objs):
     """Upper bound on every partial sum any association order can form when contracting the cores:
     the max entry of the contraction of the entrywise-absolute cores (product over the given objects)."""
